@@ -299,7 +299,7 @@ def run(args, prop, meta, tier, seed, run_dir, t_start):
                     out = os.path.join(run_dir, "%s-%d.json" % (flavor, i))
                     ann = os.path.join(run_dir, "%s-%d.ann" % (flavor, i))
                     wrapper = [w.replace("{log}", os.path.join(run_dir, "%s-%d.trace" % (flavor, i))) for w in st.get("wrapper", [])]
-                    cmd = wrapper + [binp, prop, "--tier", tier, "--seed", str(seed), "--shard", str(i),
+                    cmd = wrapper + [binp, prop, "--tier", st.get("tier_override", tier), "--seed", str(seed), "--shard", str(i),
                            "--nshards", str(nsh), "--out", out, "--announce", ann, "--flavor", flavor,
                            "--scale", str(scale), "--run-dir", run_dir]
                     env = dict(ENV)
@@ -505,7 +505,7 @@ def post_process(prop, tier, seed, st, flavor, shards, run_dir, merged, stage_no
             try:
                 with open(trace, errors="replace") as f:
                     for line in f:
-                        if "close(" in line and ") = " in line:
+                        if "close(" in line and re.search(r"close\(\d+\)\s*=\s*-?\d+", line):
                             n_close += 1
                             if "EBADF" in line:
                                 n_bad += 1
